@@ -2451,14 +2451,14 @@ LAZYIV_STRANDED = ("bed6", "bed6:signs-and-leading-zeros", "narrowPeak")      # 
 
 
 def cases_lazyiv(tier, rng):
-    """merge_intervals (the function that assigns to the table it got by indexing): every table x every dress (distance 0;
-    distances 1, 2 on two dresses per table, rotating; every 6th file also read with read()); every other function: every
-    table x one dress (rotating), the genomic ones on every other table.  Quick: every other dress per table for
-    merge_intervals, every third function of the registry per table for the others (all alternating over the tables)."""
+    """merge_intervals (the function that assigns to the table it got by indexing): every table x two of every three dresses
+    (distance 0; distances 1, 2 on two dresses per table; every 6th file also read with read()); every other interval function:
+    every table x one dress; the genomic ones: every third function per table x one dress.  Quick: every other dress per table
+    for merge_intervals, every third function of the registry per table for the others.  (All rotating over the tables.)"""
     full = tier != "quick"
     F = _lazyiv_functions()
     dresses = list(LAZYIV_DRESSES) if full else list(LAZYIV_QUICK_DRESSES)
-    tables = _lazyiv_tables(5 if full else 4, 30 if full else 8, rng)
+    tables = _lazyiv_tables(5 if full else 4, 10 if full else 8, rng)
     nd = len(dresses)
     rest_one = [n for n, (k, _) in F.items() if not n.startswith("merge_intervals") and not k.startswith("genomic")]
     rest_genomic = [n for n, (k, _) in F.items() if k.startswith("genomic")]
@@ -2478,7 +2478,7 @@ def cases_lazyiv(tier, rng):
             stranded = dress in LAZYIV_STRANDED
             hows = ("read_chunk", "read") if (full and (t + j) % 6 == 0) else ("read_chunk",)
             for how in hows:               # (grouped per file: the environment - file, baselines - is made once)
-                if full or (j + t) % 2 == 0 or (j - 2 * t) % nd == 0:
+                if ((j + t) % 3 != 0 if full else (j + t) % 2 == 0) or (j - 2 * t) % nd == 0:
                     yield case("merge_intervals/d0", dress, one, how)
                 if (j - t) % nd in (0, 1) if full else ((j + t) % 2 == 0 and (j - t) % nd in (0, 1)):
                     yield case("merge_intervals/d1", dress, one, how)
@@ -2494,7 +2494,7 @@ def cases_lazyiv(tier, rng):
                             yield case(fn, dress, one, how)
             if (j - 2 * t) % nd == 1:
                 for i, fn in enumerate(rest_genomic):
-                    if (F[fn][0].endswith("-s") and not stranded) or (i + t) % (2 if full else 3):
+                    if (F[fn][0].endswith("-s") and not stranded) or (i + t) % 3:
                         continue
                     yield case(fn, dress, multi, "read_chunk")
 
@@ -2517,7 +2517,7 @@ def run_lazyiv(col, tier, tmp, allowed_s):
 
 SECTION_ORDER = ("text", "seq", "interval", "genomic", "table")
 NEW_ALLOWANCE = ((6.5, 3.5), (40, 19))       # seconds for (rawbuf, writable chunks of every format): quick, thorough
-LAZYIV_ALLOWANCE = (9, 55)                   # seconds for the functions called directly on lazily read interval chunks: quick, thorough
+LAZYIV_ALLOWANCE = (9, 60)                   # seconds for the functions called directly on lazily read interval chunks: quick, thorough
 # share of the wall budget after which a section is cut short (the chunk section gets what is left)
 QUICK_DEADLINES = {"text": 10, "seq": 20, "interval": 30, "genomic": 36, "table": 42}
 THOROUGH_DEADLINES = {"text": 90, "seq": 150, "interval": 230, "genomic": 260, "table": 290}
@@ -2564,13 +2564,13 @@ def run(tier="quick", seed=0):
                    "every format without final newline": "fields in file order and reversed, functions on field values; thorough: "
                                                          "single fields, write twice, slices, whole pool and first line"},
         "lazyiv": {"positions": "0..%d" % (4 if tier == "quick" else 5),
-                   "intervals per table": "1..2 sorted on start, all combinations + %d sampled triples" % (8 if tier == "quick" else 30),
+                   "intervals per table": "1..2 sorted on start, all combinations + %d sampled triples" % (8 if tier == "quick" else 10),
                    "chromosomes": "one (interval arithmetic); every split of the table over two (genomic functions)",
                    "dresses": list(LAZYIV_QUICK_DRESSES) if tier == "quick" else list(LAZYIV_DRESSES),
                    "ways of reading": ["read_chunk"] + ([] if tier == "quick" else ["read (every 6th file)"]),
                    "functions": sorted(_lazyiv_functions()),
-                   "merge_intervals": "distance 0 on every dress (quick: every other dress), distances 1, 2 on two dresses per table",
-                   "other functions": "one dress per table, rotating (quick: every third function per table; genomic ones: thorough every other)"},
+                   "merge_intervals": "distance 0 on two of every three dresses (quick: every other dress), distances 1, 2 on two dresses per table",
+                   "other functions": "one dress per table, rotating (quick, and genomic ones: every third function per table)"},
         "chunk": {"indexed copies": list(KEEP_INDEX_KINDS),
                   "formats": list(FORMATS), "lines per file": "every non-empty sub-selection of the pool (quick: whole pool and first line)",
                   "pool sizes": {k: len(v[3]) for k, v in FORMATS.items()},
